@@ -24,6 +24,7 @@ import itertools
 import json
 import os
 import warnings
+import zlib
 from typing import Any, Dict, Iterator, List, Optional, Tuple
 
 from vlib.core import Report, Violation
@@ -89,7 +90,7 @@ def fdesc(n: int, cols: List[List[Any]]) -> Dict[str, Any]:
 
 def base_frames(tier: str) -> Iterator[Dict[str, Any]]:
     """every frame with 0..2 rows and 1..2 columns ('x', 'y') whose columns range over the KINDS domains.
-    quick: in two-column two-row frames the second column is restricted to the int and str kinds."""
+    quick: in two-column two-row frames the second column is restricted to the int kind."""
     kinds = list(KINDS)
     for n in (0, 1, 2):
         for k1 in kinds:
@@ -97,7 +98,7 @@ def base_frames(tier: str) -> Iterator[Dict[str, Any]]:
             for v1 in itertools.product(dom1, repeat=n):
                 yield fdesc(n, [["x", dt1, v1]])
                 for k2 in kinds:
-                    if tier == "quick" and n == 2 and k2 not in ("int", "str"):
+                    if tier == "quick" and n == 2 and k2 != "int":
                         continue
                     dt2, dom2 = KINDS[k2]
                     for v2 in itertools.product(dom2, repeat=n):
@@ -183,14 +184,29 @@ def model(name: str, fresh: bool = False):
     return _MODELS[name]
 
 
-def run_pair(case: Dict[str, Any]) -> Tuple[Optional[str], Dict[str, Any]]:
+_A_MEMO: Dict[str, Any] = {}
+
+
+def _frame_and_key(fd: Dict[str, Any], memo: bool = False):
+    """(frame, hash_data_frame(frame), make_cache_key(...{'d': frame})) -- the base frame of consecutive cases is memoised"""
     import data_algebra.eval_cache as ec
 
-    fa, fb = build_frame(case["a"]), build_frame(case["b"])
+    k = json.dumps(fd) if memo else None
+    if memo and _A_MEMO.get("k") == k:
+        return _A_MEMO["v"]
+    fr = build_frame(fd)
+    key = ec.make_cache_key(db_model=model("sqlite"), sql="SELECT 1", data_map={"d": fr})
+    h = ec.hash_data_frame(fr) if memo else key.dat_map_list[0][1]  # the key carries hash_data_frame's string; call it directly for the base frames
+    v = (fr, h, key)
+    if memo:
+        _A_MEMO["k"], _A_MEMO["v"] = k, v
+    return v
+
+
+def run_pair(case: Dict[str, Any]) -> Tuple[Optional[str], Dict[str, Any]]:
+    fa, ha, ka = _frame_and_key(case["a"], memo=True)
+    fb, hb, kb = _frame_and_key(case["b"])
     equal = bool(fa.equals(fb)) and [str(c) for c in fa.columns] == [str(c) for c in fb.columns]
-    ha, hb = ec.hash_data_frame(fa), ec.hash_data_frame(fb)
-    ka = ec.make_cache_key(db_model=model("sqlite"), sql="SELECT 1", data_map={"d": fa})
-    kb = ec.make_cache_key(db_model=model("sqlite"), sql="SELECT 1", data_map={"d": fb})
     obs = {"frames_equal": equal, "hash_equal": ha == hb, "key_equal": ka == kb, "hash_a": ha[:60], "hash_b": hb[:60]}
     if (ha == hb) != (ka == kb):
         return "hash_data_frame and make_cache_key disagree on this pair (hash equal %r, key equal %r)" % (ha == hb, ka == kb), obs
@@ -206,33 +222,36 @@ def run_pair(case: Dict[str, Any]) -> Tuple[Optional[str], Dict[str, Any]]:
 _INT_FAMILY = {"int64", "int32", "uint64", "Int64", "bool"}
 
 
+_NUMERIC = _INT_FAMILY | {"float64", "float32"}
+
+
 def classify_pair(case: Dict[str, Any], obs: Dict[str, Any]) -> str:
-    """narrow classifiers for the recorded key collisions."""
+    """narrow classifiers for the recorded key collisions (both are properties of pandas.util.hash_pandas_object that
+    hash_data_frame does not compensate for)."""
     a, b = case["a"], case["b"]
     if (not obs["frames_equal"]) and obs["key_equal"] and a["n"] == b["n"] and len(a["cols"]) == len(b["cols"]):
         if all(ca[0] == cb[0] for ca, cb in zip(a["cols"], b["cols"])):
             diff_dtype = [(ca, cb) for ca, cb in zip(a["cols"], b["cols"]) if ca[1] != cb[1]]
             diff_vals = [(ca, cb) for ca, cb in zip(a["cols"], b["cols"]) if ca[2] != cb[2]]
             if len(diff_dtype) == 1 and not diff_vals:
+                # the same values stored under another dtype: the 8-byte patterns are hashed, the dtype is not part of the key
                 ca, cb = diff_dtype[0]
                 dts = {ca[1], cb[1]}
                 fam = None
                 if a["n"] == 0:
                     fam = "empty-column"
                 elif dts <= _INT_FAMILY:
-                    fam = "integer-bool-widths"
-                elif len(dts & _INT_FAMILY) == 1 and "float64" in dts and all(v == 0 for v in ca[2]):
-                    fam = "zero-int-vs-float"
+                    fam = "integer-bool-widths"  # int64 / int32 / uint64 / Int64 / bool holding the same integers
+                elif dts <= _NUMERIC and all(v == 0 for v in ca[2]):
+                    fam = "all-zero-int-vs-float"  # integer 0 and float 0.0 (any width) are the all-zero pattern
                 elif dts == {"str", "object"}:
                     fam = "str-vs-object"
                 if fam:
-                    # same values stored under another dtype: hash_pandas_object hashes the 8-byte patterns, the dtype is not in the key
                     return "C25:hash_data_frame:dtype-only-difference:" + fam
-            if not diff_dtype and len(diff_vals) == 1:
-                ca, cb = diff_vals[0]
-                cells = [(x, y) for x, y in zip(ca[2], cb[2]) if x != y]
-                if ca[1] == "object" and len(cells) == 1 and type(cells[0][0]) is not type(cells[0][1]) and str(cells[0][0]) == str(cells[0][1]):
-                    # object column with a non-string value: pandas falls back to hashing str(value), so 1 and '1' collide
+            if not diff_dtype and diff_vals:
+                cells = [(ca[1], x, y) for ca, cb in diff_vals for x, y in zip(ca[2], cb[2]) if x != y]
+                if cells and all(dt == "object" and type(x) is not type(y) and str(x) == str(y) for dt, x, y in cells):
+                    # object column holding a non-string value: pandas falls back to hashing str(value), so 1 and '1' collide
                     return "C25:hash_data_frame:object-column-value-hashed-as-str"
     return "C25:unclassified:" + case_hash(case)
 
@@ -338,9 +357,12 @@ def run_history(case: Dict[str, Any]) -> Tuple[Optional[str], Dict[str, Any]]:
     cache = ec.ResultCache()
     mdl: Dict[int, Dict[str, Any]] = {}
 
-    def lookup_args(k):
+    shared = {k: build_frame(keys[k][2]) for k in (0, 1)}  # lookup frames that are never mutated
+    wants = [build_frame(r) for r in R]  # expected results, never handed to the cache
+
+    def lookup_args(k, fresh=False):
         dialect, sql, fd = keys[k]
-        return {"db_model": model(dialect), "sql": sql, "data_map": {"d": build_frame(fd)}}
+        return {"db_model": model(dialect), "sql": sql, "data_map": {"d": build_frame(fd) if fresh else shared[k]}}
 
     def view(step, op) -> Optional[str]:
         for k in (0, 1):
@@ -352,7 +374,7 @@ def run_history(case: Dict[str, Any]) -> Tuple[Optional[str], Dict[str, Any]]:
             if k in mdl:
                 if exc is not None:
                     return "step %d %r: lookup of key %d fails, the model holds result %d" % (step, op, k, mdl[k]["r"])
-                want = build_frame(R[mdl[k]["r"]])
+                want = wants[mdl[k]["r"]]
                 if not _same(got, want):
                     return "step %d %r: key %d holds %r, the model holds %r" % (step, op, k, got.to_dict("list"), want.to_dict("list"))
             elif exc is None:
@@ -362,7 +384,7 @@ def run_history(case: Dict[str, Any]) -> Tuple[Optional[str], Dict[str, Any]]:
     for i, op in enumerate(case["ops"]):
         if op[0] == "store":
             _, k, r, mut = op
-            args = lookup_args(k)
+            args = lookup_args(k, fresh=True)
             res = build_frame(R[r])
             cache.store(res=res, **args)
             mdl[k] = {"r": r}
@@ -379,7 +401,7 @@ def run_history(case: Dict[str, Any]) -> Tuple[Optional[str], Dict[str, Any]]:
             if (k in mdl) != (exc is None):
                 return "step %d %r: get raised=%r, model has the key=%r" % (i, op, exc, k in mdl), {"step": i}
             if exc is None:
-                want = build_frame(R[mdl[k]["r"]])
+                want = wants[mdl[k]["r"]]
                 if not _same(got, want):
                     return "step %d %r: get returned %r, stored was %r" % (i, op, got.to_dict("list"), want.to_dict("list")), {"step": i}
                 if mut:
@@ -398,7 +420,7 @@ def history_cases(tier: str, seed: int) -> Iterator[Dict[str, Any]]:
             for hist in itertools.product(alpha, repeat=n):
                 if tier == "quick" and n == 3 and variant != "sql":
                     # quick: length-3 histories in full for the 'sql' key pair, every 4th (rotated by the seed) for the others
-                    if (hash(json.dumps(hist)) + seed) % 4 != 0:
+                    if (zlib.crc32(json.dumps(hist).encode()) + seed) % 4 != 0:
                         continue
                 yield {"kind": "history", "variant": variant, "ops": [list(o) for o in hist]}
 
@@ -453,7 +475,7 @@ def _run_all(cases: List[Dict[str, Any]], parallel: bool) -> List[Tuple[Any, ...
     import concurrent.futures
     import multiprocessing
 
-    chunks = [cases[i : i + 500] for i in range(0, len(cases), 500)]
+    chunks = [cases[i : i + 400] for i in range(0, len(cases), 400)]
     ctx = multiprocessing.get_context("spawn")
     res: List[Tuple[Any, ...]] = []
     with concurrent.futures.ProcessPoolExecutor(max_workers=MAX_WORKERS, mp_context=ctx) as ex:
@@ -481,25 +503,24 @@ def bounded(rep: Report, tier: str, seed: int) -> None:
     per_key: Dict[str, int] = {}
     groups: Dict[str, int] = {}
     relations: Dict[str, int] = {}
-    for group, gen in (("pair", pair_cases(tier)), ("datamap", iter(datamap_cases())), ("history", history_cases(tier, seed))):
-        cases = list(gen)
-        results = _run_all(cases, parallel=True)
-        for case, (h, msg, obs, key, err) in zip(cases, results):
-            if err:
-                rep.errors.append(err)
-                continue
-            groups[group] = groups.get(group, 0) + 1
-            if group == "pair":
-                relations[case["relation"]] = relations.get(case["relation"], 0) + 1
-            # non-trivial = keys / views compared; a history of length 1 that only looks up an empty cache is trivial
-            trivial = group == "history" and all(o[0] == "get" for o in case["ops"])
-            rep.case((group, h), nontrivial=not trivial)
-            if groups[group] in (5, 900) and len(rep.samples) < 8:
-                rep.add_sample(short(case))
-            if msg:
-                per_key[key] = per_key.get(key, 0) + 1
-                if per_key[key] <= 2:
-                    rep.violations.append(Violation(key=key, what="%s: %s" % (short(case), msg), replay={"module": "cbc.c25", "case": case}))
+    tagged = [("pair", c) for c in pair_cases(tier)] + [("datamap", c) for c in datamap_cases()] + [("history", c) for c in history_cases(tier, seed)]
+    results = _run_all([c for _, c in tagged], parallel=True)  # one pool for everything
+    for (group, case), (h, msg, obs, key, err) in zip(tagged, results):
+        if err:
+            rep.errors.append(err)
+            continue
+        groups[group] = groups.get(group, 0) + 1
+        if group == "pair":
+            relations[case["relation"]] = relations.get(case["relation"], 0) + 1
+        # non-trivial = keys / views compared; a history of length 1 that only looks up an empty cache is trivial
+        trivial = group == "history" and all(o[0] == "get" for o in case["ops"])
+        rep.case((group, h), nontrivial=not trivial)
+        if groups[group] in (5, 900) and len(rep.samples) < 8:
+            rep.add_sample(short(case))
+        if msg:
+            per_key[key] = per_key.get(key, 0) + 1
+            if per_key[key] <= 2:
+                rep.violations.append(Violation(key=key, what="%s: %s" % (short(case), msg), replay={"module": "cbc.c25", "case": case}))
     rep.extra["c25_cases_by_group"] = groups
     rep.extra["c25_pairs_by_relation"] = relations
     rep.extra["c25_failing_cases_by_key"] = dict(sorted(per_key.items()))
